@@ -16,6 +16,8 @@ use crate::simfs::FsOp;
 pub struct FsFault;
 
 const REF_TICK_LIMIT: u64 = 100_000;
+/// label of jobs whose entry TEXT (from_string) already carries the corruption
+const CORRUPTED_ENTRY_TEXT: &str = "corrupted-entry-text";
 /// Call-depth limit (hook H3b) for runs whose text is corrupted: a fault can
 /// manufacture a legitimately unbounded program (a bit flip that turns the
 /// base case of a recursive function into an unknown function: endless
@@ -47,7 +49,7 @@ fn n_sweep_units(ctx: &Ctx) -> u64 {
 /// Verdict for one faulted run. `ref_ok` = the fault-free run of the same
 /// project terminated normally within REF_TICK_LIMIT evaluation ticks.
 fn judge(spec: &JobSpec, r: &JobResult, ref_ok: bool) -> (Option<(String, String)>, &'static str) {
-    let corrupts = spec.faults.iter().enumerate().any(|(i, f)| f.corrupts_text() && r.fired.get(i).copied().unwrap_or(false));
+    let corrupts = spec.label == CORRUPTED_ENTRY_TEXT || spec.faults.iter().enumerate().any(|(i, f)| f.corrupts_text() && r.fired.get(i).copied().unwrap_or(false));
     if let Some(l) = &r.stdio_leak {
         return (Some(("stdio-leak".into(), format!("the library wrote to the process's stdout/stderr: {:?}", l.chars().take(200).collect::<String>()))), "violation");
     }
@@ -103,7 +105,7 @@ impl<'a> UnitRun<'a> {
         let idx = self.idx;
         self.idx += 1;
         let mut spec = spec.clone();
-        if spec.faults.iter().any(|f| f.corrupts_text()) {
+        if spec.label == CORRUPTED_ENTRY_TEXT || spec.faults.iter().any(|f| f.corrupts_text()) {
             spec.depth_limit = CORRUPTED_TEXT_DEPTH;
             spec.eval_fuel = CORRUPTED_TEXT_FUEL;
         }
@@ -355,13 +357,46 @@ impl FsFault {
             }
             for ext in ["scss", "sass", "css"] {
                 // (a) as entry through from_path, (b) through a load directive of a scss entry
-                let via = *rng.pick(&["entry", "import", "use", "forward", "load-css"]);
+                let via = *rng.pick(&["entry", "entry", "import", "use", "forward", "load-css", "string"]);
                 let mut spec = JobSpec::default();
                 spec.compressed = rng.chance(0.4);
                 spec.quiet = rng.chance(0.5);
                 spec.unicode = rng.chance(0.6);
                 spec.charset = rng.chance(0.6);
                 let target;
+                if via == "string" {
+                    // from_string with an explicit input syntax: the text arrives corrupted
+                    // (e.g. piped through a flaky transport); only corruptions that are still
+                    // valid UTF-8 can be delivered as a String
+                    target = "/w/unused".to_string();
+                    spec.entry = Entry::Text(text.clone());
+                    spec.input_syntax = Some(ext.to_string());
+                    ur.project_hash = mix(hash_bytes(9, text.as_bytes()), mix_str(2, &format!("{}string", ext)));
+                    let r0 = match ur.case(&spec, true) {
+                        Some(r) => r,
+                        None => continue,
+                    };
+                    let _ = r0;
+                    let other = ctx.corpus[rng.usize_below(ctx.corpus.len())].input.clone();
+                    let mut faults = content_faults(&mut rng, &target, text.as_bytes(), full, other.as_bytes());
+                    if !full && faults.len() > 160 {
+                        rng.shuffle(&mut faults);
+                        faults.truncate(160);
+                    }
+                    for f in faults {
+                        if let Fault::Content { what, .. } = &f {
+                            if let Ok(t) = String::from_utf8(crate::simfs::apply_content_fault(text.as_bytes(), what)) {
+                                let mut s = spec.clone();
+                                s.entry = Entry::Text(t);
+                                s.label = CORRUPTED_ENTRY_TEXT.to_string();
+                                ur.res.bump(&format!("fired.{}", what.kind()), 1);
+                                ur.res.bump("string_entry_runs", 1);
+                                ur.case(&s, false);
+                            }
+                        }
+                    }
+                    continue;
+                }
                 if via == "entry" {
                     target = format!("/w/x.{}", ext);
                     spec.files = vec![(target.clone(), text.clone().into_bytes())];
@@ -451,7 +486,7 @@ impl Engine for FsFault {
             ref_ok = matches!(r0.outcome, Outcome::Ok(_) | Outcome::Err(_)) && r0.eval_ticks < REF_TICK_LIMIT;
         }
         let mut spec = spec;
-        if spec.faults.iter().any(|f| f.corrupts_text()) {
+        if spec.label == CORRUPTED_ENTRY_TEXT || spec.faults.iter().any(|f| f.corrupts_text()) {
             spec.depth_limit = CORRUPTED_TEXT_DEPTH;
             spec.eval_fuel = CORRUPTED_TEXT_FUEL;
         }
